@@ -5,7 +5,7 @@ import Nstd.Avl.Model
   Containers: 0 = Map<Key,int>, 1 = MultiMap<Key,int>, 2 = a second Map<Key,int>.
     reset | dom <lo> <hi> | obs <0|1|2>
     <c> ins k v | insat p k v | rmkey k | rmat p | rmfront | rmback | clear
-    <c> find k | has k | count k | front | back | nop | wb | assign <src> | insall <src>
+    <c> find k | has k | count k | front | back | nop | wb | assign <src> | insall <src> | copy <src>
   Observation of the container touched, one line per op:
     <ret> c=<key comparisons of the op> n=<size> [| k:v k:v ...] [| p/c p/c ...]
   the last part lists, for every key of the domain, the position `find` returns (e = end) and
@@ -86,7 +86,7 @@ def stepLine (w : World) (ws : List String) : World × String :=
         | ["nop"] => (w, obs w s ⟨.none, 0⟩)
         | ["wb"] => (w, render s.t)
         | [op, src] =>
-          if op = "assign" ∨ op = "insall" then
+          if op = "assign" ∨ op = "insall" ∨ op = "copy" then
             match src.toNat? with
             | none => (w, "bad-op")
             | some j =>
@@ -95,7 +95,11 @@ def stepLine (w : World) (ws : List String) : World × String :=
               | some sj =>
                 if j = c ∨ s.multi ∨ sj.multi then (w, "bad-op")
                 else
-                  let r := if op = "assign" then s.assignFrom sj else s.insertAll sj
+                  -- `copy`: destroy the container and copy-construct it (same loop as `operator=`,
+                  -- started from a fresh container)
+                  let r := if op = "assign" then s.assignFrom sj
+                           else if op = "copy" then (St.init false).assignFrom sj
+                           else s.insertAll sj
                   (setC w c r.1, obs w r.1 ⟨.none, r.2⟩)
           else
             match parseOp rest with
